@@ -1,5 +1,6 @@
 """C07 — every 'not TU' answer carries a valid (and, for ternary input, minimal) violating submatrix."""
 from props import c01
+import gen
 
 RULE = ("same streams as C01 with the violating submatrix requested, greedy and naive search alternating; the Coq "
         "checker check_violator (square, in range, duplicate-free, |det| >= 2) and, for ternary input under the "
@@ -11,6 +12,10 @@ JUDGE_API = {}
 
 
 def run(ctx):
+    import clilib as _cls
+    _cls.stream(ctx, "clisub", gen.cliverdict_lines(ctx.rng.fork("clisub0"), 0, 1, 300 if ctx.quick else 8000, (-1, 0, 1), 5, 5, 20, True, variants=[0, 1, 3, 4, 5, 6], tool_id=None),
+                "cmr-tu -N: the written submatrix file vs. the matrix parsed from the input bytes",
+                lambda c: gen.CLISUB_CODES.get(c, str(c)))
     ctx.stream("tu", c01.deep_cert_lines(ctx), "large 3-sum matrices, 'no' answers certified by their submatrix",
                judge_api="tu_cert", describe=lambda c: CODES.get(c, str(c)), nontrivial=c01.nontrivial, keyfn=c01.keyfn)
     lines = c01.tu_lines(ctx, 1)
